@@ -13,9 +13,27 @@ parameter `env` of the translated methods; `EnvCodec env c err` says that this e
 (`create` sees the header's sender, exceptions mapped by `err`).  So the cache-invalidation logic of the setters, the
 lazy encode / decode of the getters, the length arithmetic and the layout of `bytes` (`Frame.encode`: start, LE16 length,
 four header bytes, kind, payload, BCC, end) are tied by translation; `C02.bytes_reflect_last_content`, `length_consistent`
-… (theorems about `Obj.run`) speak about the translated code through `Frame_step_sim` / `Frame_run_sim`.
-An instance after a RAISED exception is not represented by the translation (`Except`): the simulation is stated up to the
-first operation that raises.
+… (theorems about `Obj.run`) speak about the translated code through `Frame_step_sim` (here: ONE operation) and its
+lift to operation sequences `Frame_run_sim` in Props/TieFrameObjRun.lean (`bytes_reflect_last_content_code`,
+`length_consistent_code`, `getters_pure_code`, `F5_one_sided_fill_code`, `fresh_same_args_code`).
+An instance after a RAISED exception is not represented by the translation (`Except`): `Frame_step_sim` answers the mapped
+exception for a raising step, and `Frame_run_sim` is stated up to (and including) the first operation that raises.
+
+WHAT THE HYPOTHESES EXCLUDE (audit round 8):
+* `EnvCodec` asks `decode_message` to depend on NOTHING of the instance (not on the handler slot, not on the header) and
+  `create_message` on nothing but the sender: kinds whose structures read `self.frame.handler` (RegulatorData,
+  ThermostatParameters) have no `EnvCodec` and are outside these theorems.  The only instance exhibited is the plain-request
+  kind (`requestEnv_codec`); `PyT.testEnv` (the harness's environment) is not shown to be one.
+* `x.cls < 256`, `x.cls = cls`: with a frame-type code >= 256 the code raises ValueError from `append` where the model says
+  `.struct` — not tied.
+* `Wf x`: the data slot holds no `None` as a data VALUE (`frame.data = None` through the setter leaves such a state; `OpOk`
+  excludes it in the run-level theorem).
+* `Frame_new_eq` only for empty `**kwargs`; the `ensure_dict(data, kwargs)` branch of `__init__` is untied.
+* the instance after a RAISED exception is not represented (`Obj.step .bytes` returns a state with the message cached on
+  `.raised .struct`; the translation has no state there).
+* `Frame.__eq__`, `assign_to`, `__repr__`, `Frame.create` and the plain header attributes are NOT translated: C03's equality
+  theorems stay about the hand-written `pyEq`.
+* the `| _ => .error .unsupported` arms of `Frame_len_eq` / `Frame_bytes_eq` are unreachable (kept to make the match total).
 -/
 namespace PlumVerif.TieFrameObj
 open PlumVerif PlumVerif.Py PlumVerif.Obj
